@@ -33,6 +33,7 @@ def close_case(draw, tier="quick"):
             "again": draw(st.sampled_from([None, None, 0, 5, 200])),
             # a second close() on the same side that many loop handles after the first one started (overlapping it)
             # a decoder that is still working on its first frames (60 ms of real time per thread) when things happen
+            "aged": draw(st.sampled_from([False, False, False, False, False, True])),
             "busy_decoder": draw(st.sampled_from([False, False, False, False, True])),
             "k_same": draw(st.one_of(st.none(), st.none(), st.integers(1, 5), st.integers(1, 60))),
             "yields": draw(st.integers(0, 3)),
@@ -219,6 +220,16 @@ class Scenario:
                     if ch.readyState == "open":
                         ch.send("hello")
             await asyncio.sleep(0.3)
+            if case.get("aged"):
+                # a connection that has been up for a long time: the senders' packet / octet counters are about to pass
+                # 2^32 (4 GiB sent); sender reports go on for a while before anything is closed
+                self.classes.add("aged-counters")
+                for pc in self.pcs:
+                    for snd in pc.getSenders():
+                        if hasattr(snd, "_RTCRtpSender__octet_count"):
+                            snd._RTCRtpSender__octet_count = 2**32 - 40
+                            snd._RTCRtpSender__packet_count = 2**32 - 2
+                await asyncio.sleep(2.5)
             await extras(6)
         if level >= 6:
             self.inject(1, loop)
